@@ -69,6 +69,87 @@ theorem AllIdem.tail {q : Option Quant} {qs : List (Option Quant)} (h : AllIdem 
 theorem AllIdem.dropLast {qs : List (Option Quant)} (h : AllIdem qs) : AllIdem qs.dropLast :=
   fun Q hQ => h Q (List.dropLast_subset _ hQ)
 
+theorem AllIdem.mono {qs qs' : List (Option Quant)} (h : AllIdem qs) (hs : qs' ⊆ qs) : AllIdem qs' :=
+  fun Q hQ => h Q (hs hQ)
+
+/-! ### the (quantizer, weight) pairing of the main loop -/
+
+theorem bnQs_subset (info : BNInfo) (qs : List (Option Quant)) : bnQs info qs ⊆ qs := by
+  intro q hq
+  unfold bnQs at hq
+  simp only [List.mem_append] at hq
+  rcases hq with (hq | hq) | hq
+  · split at hq
+    · exact List.take_subset _ _ hq
+    · simp at hq
+  · split at hq
+    · exact List.drop_subset _ _ (List.take_subset _ _ hq)
+    · simp at hq
+  · exact List.drop_subset _ _ (List.take_subset _ _ hq)
+
+theorem bidirQs_subset (nw : ℕ) (qs : List (Option Quant)) : bidirQs nw qs ⊆ qs := by
+  intro q hq
+  unfold bidirQs at hq
+  simp only [List.mem_append] at hq
+  rcases hq with hq | hq
+  · exact List.take_subset _ _ (List.take_subset _ _ hq)
+  · exact List.drop_subset _ _ (List.take_subset _ _ hq)
+
+/-- the loop never uses a quantizer that is not one of the layer's own -/
+theorem layerQs_subset (l : Layer) : layerQs l ⊆ l.qs := by
+  unfold layerQs
+  cases l.kind <;> dsimp only
+  · split
+    · exact bnQs_subset _ _
+    · exact List.Subset.refl _
+  · exact List.dropLast_subset _
+  · exact bidirQs_subset _ _
+  · exact List.Subset.refl _
+  · split
+    · exact bnQs_subset _ _
+    · exact List.Subset.refl _
+
+/-- with `[gamma, beta, mean, variance, …]` the batch-norm pairing is the explicit list -/
+theorem bnQs_cons (info : BNInfo) (g b m v : Option Quant) (r : List (Option Quant)) :
+    bnQs info (g :: b :: m :: v :: r) =
+      (if info.scale then [g] else []) ++ (if info.center then [b] else []) ++ [m, v] := by
+  simp [bnQs]
+
+theorem exists_four {α : Type} {l : List α} (h : 4 ≤ l.length) :
+    ∃ a b c d r, l = a :: b :: c :: d :: r := by
+  rcases l with _ | ⟨a, _ | ⟨b, _ | ⟨c, _ | ⟨d, r⟩⟩⟩⟩
+  all_goals first | (simp at h; done) | exact ⟨a, b, c, d, r, rfl⟩
+
+theorem zipApply_append (qa qb : List (Option Quant)) (wa wb : List Tensor)
+    (h : qa.length = wa.length) :
+    zipApply (qa ++ qb) (wa ++ wb) = zipApply qa wa ++ zipApply qb wb := by
+  induction qa generalizing wa with
+  | nil =>
+    cases wa with
+    | nil => simp [zipApply]
+    | cons w ws => simp at h
+  | cons q qs ih =>
+    cases wa with
+    | nil => simp at h
+    | cons w ws =>
+      simp only [List.cons_append, zipApply]
+      rw [ih ws (by simpa using h)]
+
+/-- quantizers beyond the number of weights are never reached (`zip` truncates) -/
+theorem zipApply_take (qs : List (Option Quant)) (ws : List Tensor) (n : ℕ) (h : ws.length ≤ n) :
+    zipApply (qs.take n) ws = zipApply qs ws := by
+  induction qs generalizing ws n with
+  | nil => simp [zipApply]
+  | cons q qs ih =>
+    cases ws with
+    | nil => cases n <;> simp [zipApply]
+    | cons w ws =>
+      cases n with
+      | zero => simp at h
+      | succ n =>
+        simp only [List.take_succ_cons, zipApply]
+        rw [ih ws n (by simpa using h)]
+
 theorem applyQ_idem {q : Option Quant} (h : ∀ Q, q = some Q → QIdem Q) (w : Tensor) :
     applyQ q (applyQ q w) = applyQ q w := by
   cases q with
@@ -143,7 +224,8 @@ theorem stepAt_w (env : Env) (M : Model) (i : ℕ) (st : St) (k : ℕ) :
   | some l =>
     simp only [S_eq_of_get h]
     cases hk : l.kind <;> simp only [upd, stepWeights, hk]
-    · split
+    all_goals
+      split
       · subst_vars; rfl
       · rfl
 
@@ -293,20 +375,35 @@ theorem exportQ_d_mem (env : Env) (M : Model) (W : ℕ → List Tensor) (i : ℕ
 /-- every quantizer object of the model is idempotent (value and `.scale`) -/
 def ModelIdem (M : Model) : Prop := ∀ l ∈ M, AllIdem l.qs
 
-/-- every batch-norm that some layer is fused with is a plain QBatchNormalization with scale and
-    center and its quantizer list (then the main loop's zip and add_bn_fusing_weights pair
-    quantizers and weights alike) -/
+/-- every batch-norm that some layer is fused with is a plain layer listing its (at least) four
+    weight quantizers [gamma, beta, mean, variance, …] — ANY scale / center (fix round: the main
+    loop's zip and add_bn_fusing_weights now pair quantizers and weights alike in all four cases) -/
 def FuseAligned (M : Model) : Prop :=
-  ∀ i b, fuseOf M i = some b → ∀ lb, M[b]? = some lb →
-    lb.kind = .plain ∧ 4 ≤ lb.qs.length ∧
-      ∃ info, lb.bn = some info ∧ info.scale = true ∧ info.center = true
+  ∀ i b, fuseOf M i = some b → ∀ lb, M[b]? = some lb → lb.kind = .plain ∧ 4 ≤ lb.qs.length
+
+theorem fuseOf_cls {M : Model} {i b : ℕ} (h : fuseOf M i = some b) :
+    clsOf M b = "QBatchNormalization" := by
+  unfold fuseOf at h
+  cases hl : M[i]? with
+  | none => simp [hl] at h
+  | some l =>
+    simp only [hl] at h
+    split at h
+    · split at h
+      · split at h
+        · rename_i hb; simp only [Option.some.injEq] at h; subst h; exact hb
+        · simp at h
+      · simp at h
+    · simp at h
 
 theorem stepWeights_idem {l : Layer} (h : AllIdem l.qs) (w : List Tensor) :
     stepWeights l (stepWeights l w) = stepWeights l w := by
+  have h' : AllIdem (layerQs l) := h.mono (layerQs_subset l)
   unfold stepWeights
   cases l.kind with
-  | plain => exact zipApply_idem h w
-  | rnn => exact zipApply_idem h.dropLast w
+  | plain => exact zipApply_idem h' w
+  | rnn => exact zipApply_idem h' w
+  | bidir => exact zipApply_idem h' w
   | folded => rfl
   | noQuant => rfl
 
@@ -320,10 +417,12 @@ theorem S_idem {M : Model} (h : ModelIdem M) (k : ℕ) (w : List Tensor) :
 
 theorem layerOuts_stepWeights {l : Layer} (h : AllIdem l.qs) (w : List Tensor) :
     layerOuts l (stepWeights l w) = layerOuts l w := by
-  unfold layerOuts stepWeights layerQs layerWs
+  have h' : AllIdem (layerQs l) := h.mono (layerQs_subset l)
+  unfold layerOuts stepWeights layerWs
   cases l.kind with
-  | plain => exact zipSplit_zipApply h w
-  | rnn => exact zipSplit_zipApply h.dropLast w
+  | plain => exact zipSplit_zipApply h' w
+  | rnn => exact zipSplit_zipApply h' w
+  | bidir => exact zipSplit_zipApply h' w
   | folded => rfl
   | noQuant => rfl
 
@@ -346,16 +445,39 @@ theorem applyQ_getD_zipApply {qs : List (Option Quant)} (h : AllIdem qs) (bw : L
       rfl
     rw [this]
 
+/-- add_bn_fusing_weights on the batch-norm weights the main loop has already quantized (with the
+    batch-norm's own pairing `bnQs`) gives the same terms as on the raw weights, when the quantizers
+    are idempotent — for every combination of scale / center -/
 theorem bnTerms_zipApply (env : Env) {lb : Layer} (h : AllIdem lb.qs) (hlen : 4 ≤ lb.qs.length)
-    {info : BNInfo} (hbn : lb.bn = some info) (hs : info.scale = true) (hc : info.center = true)
     (bw : List Tensor) (ub : Bool) (pw : List Tensor) :
-    bnTerms env lb (zipApply lb.qs bw) ub pw = bnTerms env lb bw ub pw := by
-  have h0 := applyQ_getD_zipApply h bw 0 (by omega)
-  have h1 := applyQ_getD_zipApply h bw 1 (by omega)
-  have h2 := applyQ_getD_zipApply h bw 2 (by omega)
-  have h3 := applyQ_getD_zipApply h bw 3 (by omega)
+    bnTerms env lb (zipApply (bnQs (lb.bn.getD defaultBN) lb.qs) bw) ub pw = bnTerms env lb bw ub pw := by
+  have h' : AllIdem (bnQs (lb.bn.getD defaultBN) lb.qs) := h.mono (bnQs_subset _ _)
+  obtain ⟨g, b, m, v, r, hqs⟩ := exists_four hlen
   unfold bnTerms
-  simp only [hbn, Option.getD_some, hs, hc, if_true, Nat.zero_add, Nat.reduceAdd, h0, h1, h2, h3]
+  generalize lb.bn.getD defaultBN = info at h' ⊢
+  rw [hqs, bnQs_cons] at h' ⊢
+  rcases info with ⟨sc, ce, eps⟩
+  cases sc <;> cases ce
+  · have h0 := applyQ_getD_zipApply h' bw 0 (by simp)
+    have h1 := applyQ_getD_zipApply h' bw 1 (by simp)
+    simp at h0 h1 ⊢
+    simp [h0, h1]
+  · have h0 := applyQ_getD_zipApply h' bw 0 (by simp)
+    have h1 := applyQ_getD_zipApply h' bw 1 (by simp)
+    have h2 := applyQ_getD_zipApply h' bw 2 (by simp)
+    simp at h0 h1 h2 ⊢
+    simp [h0, h1, h2]
+  · have h0 := applyQ_getD_zipApply h' bw 0 (by simp)
+    have h1 := applyQ_getD_zipApply h' bw 1 (by simp)
+    have h2 := applyQ_getD_zipApply h' bw 2 (by simp)
+    simp at h0 h1 h2 ⊢
+    simp [h0, h1, h2]
+  · have h0 := applyQ_getD_zipApply h' bw 0 (by simp)
+    have h1 := applyQ_getD_zipApply h' bw 1 (by simp)
+    have h2 := applyQ_getD_zipApply h' bw 2 (by simp)
+    have h3 := applyQ_getD_zipApply h' bw 3 (by simp)
+    simp at h0 h1 h2 h3 ⊢
+    simp [h0, h1, h2, h3]
 
 theorem fuseTerms_congr (env : Env) {M : Model} (hq : ModelIdem M) (ha : FuseAligned M)
     {i : ℕ} {l : Layer} (hl : M[i]? = some l) {w w' : ℕ → List Tensor}
@@ -369,13 +491,17 @@ theorem fuseTerms_congr (env : Env) {M : Model} (hq : ModelIdem M) (ha : FuseAli
     cases hb : M[b]? with
     | none => rfl
     | some lb =>
-      obtain ⟨hkind, hlen, info, hbn, hs, hc⟩ := ha i b hf lb hb
+      obtain ⟨hkind, hlen⟩ := ha i b hf lb hb
       have hlq : AllIdem l.qs := hq l (List.mem_of_getElem? hl)
       have hbq : AllIdem lb.qs := hq lb (List.mem_of_getElem? hb)
+      have hcls : lb.cls = "QBatchNormalization" := by
+        have := fuseOf_cls hf
+        simpa [clsOf, hb] using this
       dsimp only
       rw [hw i, hw b, S_eq_of_get hl, S_eq_of_get hb, stepWeights_idem hlq]
-      have : stepWeights lb (w b) = zipApply lb.qs (w b) := by simp [stepWeights, hkind]
-      rw [this, bnTerms_zipApply env hbq hlen hbn hs hc]
+      have : stepWeights lb (w b) = zipApply (bnQs (lb.bn.getD defaultBN) lb.qs) (w b) := by
+        simp [stepWeights, layerQs, hkind, hcls]
+      rw [this, bnTerms_zipApply env hbq hlen]
 
 theorem mkEntry_congr (env : Env) {M : Model} (hq : ModelIdem M) (ha : FuseAligned M)
     {i : ℕ} {l : Layer} (hl : M[i]? = some l) {w w' : ℕ → List Tensor}
